@@ -4,6 +4,7 @@ import (
 	"encoding/json"
 	"flag"
 	"fmt"
+	"go/types"
 	"os"
 	"path/filepath"
 	"sort"
@@ -316,6 +317,10 @@ func (r *Runner) run(spec *PropSpec) *runResult {
 			}
 		}
 	}
+	// everything that extends the (shared, unsynchronised) registry happens before the parallel phase
+	r.w.Reg.SortOf(r.w.jsonType())
+	r.w.Reg.SortOf(types.NewSlice(types.Typ[types.Uint8]))
+	r.w.axiomTexts()
 	dischargeAll(res.obls, dischargeOpts{timeoutS: timeout, allAgree: r.tier == "thorough", scratch: scratch, parallel: 16})
 	for _, o := range res.obls {
 		res.solverMs += o.TimeMs
